@@ -49,6 +49,15 @@ def python_records(ctx, n_enc, n_dec):
                 pass            # judged below: the record of this very message carries the refusal
         if rng.random() < 0.5 and m.burst is not None and d["burst"]["has"] and len(m.burst) == len(d["burst"]["bits"]):
             pass                                    # same length: assign() changes the bits in place
+        if rng.random() < 0.2:
+            # an encoding attempt that fails half-way (after validation) on this very object must
+            # leave nothing behind: the next valid message still encodes to exactly its own octets
+            undo = D.poison(m, rng)
+            try:
+                m.gen_msg(rng.random() < 0.5)
+            except Exception:
+                pass
+            undo()
         recs.append(D.enc_record_reused("u%d" % j, m, d, rng.random() < 0.5))
     # every (modulation, TSC set, TSC) combination once, both NOPE forms
     k = n_enc
@@ -61,11 +70,111 @@ def python_records(ctx, n_enc, n_dec):
                 rec, raw = D.enc_record("e%d" % k, d, False)
                 recs.append(rec)
                 k += 1
+    recs += dataif_records(ctx, max(100, n_enc // 6))
+    # candidates outside the documented value ranges: judged only if the toolkit itself accepts them
+    cands = []
+    for mod in sorted(D.MODK):
+        for ts in range(4):
+            for tsc in range(8):
+                d = D.rand_rx(rng)
+                d.update(ver=1, nope=False, mod=mod, tscset=ts, tsc=tsc, ci=rng.randint(-1280, 1280),
+                         burst=dict(has=True, bits=D.rand_soft(rng, D.MODK[mod] * D.GB)))
+                cands.append(d)
+    for _ in range(max(60, n_enc // 10)):
+        d = D.rand_tx(rng) if rng.random() < 0.35 else D.rand_rx(rng)
+        f = rng.choice(["fn", "tn", "pwr", "rssi", "toa", "ci", "tsc", "blen"])
+        if f == "fn":
+            d["fn"] = rng.choice([D.HYPER, D.HYPER + 1, 2 ** 31 - 1])
+        elif f == "tn":
+            d["tn"] = rng.choice([8, 15])
+        elif f == "pwr" and d["cls"] == "tx":
+            d["pwr"] = rng.choice([256, 300])
+        elif f == "rssi" and d["cls"] == "rx":
+            d["rssi"] = rng.choice([-121, -46, -255, 0])
+        elif f == "toa" and d["cls"] == "rx":
+            d["toa"] = rng.choice([32768, -32769])
+        elif f == "ci" and d["cls"] == "rx" and d["ver"] >= 1:
+            d["ci"] = rng.choice([1281, -1281, 32767])
+        elif f == "tsc" and d["cls"] == "rx" and d["ver"] >= 1:
+            d["tsc"] = rng.choice([8, 15])
+        elif f == "blen" and d["burst"]["has"]:
+            n = len(d["burst"]["bits"]) + rng.choice([1, 2, -1, 148])
+            d["burst"] = dict(has=True, bits=(D.rand_bits(rng, n) if d["cls"] == "tx" else D.rand_soft(rng, n)))
+        else:
+            continue
+        cands.append(d)
+    nacc = 0
+    for j, d in enumerate(cands):
+        rec = D.acc_record("a%d" % j, d, rng.random() < 0.5)
+        if rec is not None:
+            recs.append(rec)
+            nacc += 1
+    ctx.extra["candidates_outside_documented_ranges"] = len(cands)
+    ctx.extra["of_which_accepted_by_the_toolkit"] = nacc
     for j in range(n_dec):
         cls, raw = rng.choice(raws)
         if rng.random() < 0.15:
             cls = "tx" if cls == "rx" else "rx"       # the other parser on the same octets
         recs.append(D.dec_record("d%d" % j, cls, D.mutate(rng, raw)))
+    return recs
+
+
+def dataif_records(ctx, n):
+    """The same encoding law on the way the toolkit really sends: one long-lived DATAInterface
+    (fake socket), valid messages sent through send_msg(), with sends that fail in between - a
+    message whose encoding fails after validation (swallowed by send_msg) or a socket that refuses
+    one datagram.  What reaches the wire for the next valid message must be its own octets only."""
+    import trxd_drv as D
+    import fakesock
+    import udp_link
+    import data_if
+    rng = ctx.rng
+    net = fakesock.Net()
+    udp_link.socket = net
+    dif = data_if.DATAInterface("127.0.0.1", 5802, "0.0.0.0", 5702)
+    recs = []
+    for j in range(n):
+        d = D.rand_tx(rng) if rng.random() < 0.35 else D.rand_rx(rng)
+        legacy = rng.random() < 0.5
+        r = rng.random()
+        if r < 0.3:
+            d2 = D.rand_tx(rng) if rng.random() < 0.5 else D.rand_rx(rng)
+            pm = D.mk_tx(d2) if d2["cls"] == "tx" else D.mk_rx(d2)
+            D.poison(pm, rng)
+            try:
+                dif.send_msg(pm, rng.random() < 0.5)
+            except Exception:
+                pass
+        elif r < 0.45:
+            d2 = D.rand_tx(rng) if rng.random() < 0.5 else D.rand_rx(rng)
+            pm = D.mk_tx(d2) if d2["cls"] == "tx" else D.mk_rx(d2)
+            orig = dif.sock.sendto
+
+            def refuse(*a, **kw):
+                dif.sock.sendto = orig
+                raise OSError(11, "Resource temporarily unavailable")
+            dif.sock.sendto = refuse
+            try:
+                dif.send_msg(pm, rng.random() < 0.5)
+            except OSError:
+                pass
+            dif.sock.sendto = orig
+        net.take()
+        m = D.mk_tx(d) if d["cls"] == "tx" else D.mk_rx(d)
+        rec = dict(id="i%d" % j, e="enc", cls=d["cls"], m=d, legacy=legacy, reused=True)
+        try:
+            dif.send_msg(m, legacy)
+            sent = net.take()
+        except Exception as e:
+            rec.update(raw=[], err=type(e).__name__, dec=dict(ok=False))
+            recs.append(rec)
+            continue
+        if len(sent) != 1:
+            rec.update(raw=[], err="datagrams-%d" % len(sent), dec=dict(ok=False))
+        else:
+            raw = sent[0][1]
+            rec.update(raw=list(raw), err="", dec=D.parse_any(d["cls"], bytes(raw)))
+        recs.append(rec)
     return recs
 
 
